@@ -12,19 +12,25 @@ cp "$WT/seed/patch.diff" "$OUT/patch.diff"
 rm -rf "$OUT/demo"; cp -r "$WT/seed/demo" "$OUT/demo"
 cp "$WT/seed/NOTES.md" "$OUT/NOTES.md" 2>/dev/null
 LOG=$OUT/confirm.log
+STAGE=${STAGE:-all}
+if [ "$STAGE" != 2 ]; then
 : > "$LOG"
 cd "$WT" || exit 2
 # make sure the change is applied exactly as in patch.diff
 git checkout -q -- wtransport/src wtransport-proto/src 2>/dev/null
 git apply seed/patch.diff || { echo "patch does not apply in worktree" | tee -a "$LOG"; exit 2; }
 echo "== (a) repository suite with the change" | tee -a "$LOG"
-cargo test --workspace --no-fail-fast --offline 2>&1 | grep -E "^test result|FAILED|error(\[|:)" | tee -a "$LOG"
+# (the pinned suite = unit tests + doc tests; the seed's own demonstration file is not part of it)
+cargo test --workspace --no-fail-fast --offline --lib 2>&1 | grep -E "^test result|FAILED|error(\[|:)" | tee -a "$LOG"
+cargo test --workspace --no-fail-fast --offline --doc 2>&1 | grep -E "^test result|FAILED|error(\[|:)" | tee -a "$LOG"
 echo "== (b) demonstration with the change: $DEMO" | tee -a "$LOG"
 ( eval "$DEMO" ) 2>&1 | grep -E "^test result|test .* (ok|FAILED)|panicked|error(\[|:)|DEMO" | head -12 | tee -a "$LOG"
 git apply -R seed/patch.diff
 echo "== (c) demonstration without the change" | tee -a "$LOG"
 ( eval "$DEMO" ) 2>&1 | grep -E "^test result|test .* (ok|FAILED)|panicked|error(\[|:)|DEMO" | head -12 | tee -a "$LOG"
 git apply seed/patch.diff
+fi
+[ "$STAGE" = 1 ] && exit 0
 # 3. our checks against the change
 cd /verif || exit 2
 if ! git -C /repo apply --check "$OUT/patch.diff" 2>/dev/null; then
